@@ -109,10 +109,26 @@ def ofRegion (r : Region) : Json :=
     ("meta", ofDict r.mta),
     ("visual", ofDict r.vis)]
 
+/-- astropy's transform to the default frame attributes, as supplied by the harness: regions with a
+"std" field (positions in the default-attribute frame); identity elsewhere. -/
+def jAttrMap (js : List Json) (rs : List Region) : Except String AttrMap := do
+  let stds ← js.mapM fun j =>
+    match fieldD j "std" jNone with
+    | .null => pure (none : Option (List (ℚ × ℚ)))
+    | s => do
+      let cs ← (← jArr s).mapM fun c => do
+        match ← jArr c with
+        | [x, y] => pure (← jRat x, ← jRat y)
+        | _ => throw "std coord"
+      pure (some cs)
+  let table : List (Region × List (ℚ × ℚ)) :=
+    (rs.zip stds).filterMap fun (r, s) => s.map fun c => (r, c)
+  pure fun r => (table.lookup r).getD r.coords
+
 def jCfg (j : Json) : Except String Cfg :=
   match j.getObjVal? "cfg" with
   | .ok c => do
-    pure ⟨← fBool c "skip", ← fBool c "includeInt", ← fBool c "orderedGlobal"⟩
+    pure ⟨← fBool c "skip", ← fBool c "includeInt", ← fBool c "orderedGlobal", ← fBool c "stdAttrs"⟩
   | .error _ => pure codeCfg
 
 def ofExceptRegions : Except String (List Region) → Json
@@ -122,14 +138,18 @@ def ofExceptRegions : Except String (List Region) → Json
 def c09Ops : List (String × Handler) := [
   ("ds9.cfg", fun _ =>
     pure (Json.mkObj [("skip", Json.bool codeCfg.skip), ("includeInt", Json.bool codeCfg.includeInt),
-                      ("orderedGlobal", Json.bool codeCfg.orderedGlobal)])),
+                      ("orderedGlobal", Json.bool codeCfg.orderedGlobal),
+                      ("stdAttrs", Json.bool codeCfg.stdAttrs)])),
   -- serialize: model text, per-line exact values (for the by-value comparison of astropy numbers),
   -- skip count, and the executable instance of `lex (render o) = toRaw o`
   ("ds9.serialize", fun j => do
     let cfg ← jCfg j
     let p := (← fInt j "precision").toNat
     let ord := (← (← fArr j "ord").mapM jStr).map Key.ofString
-    let rs ← (← fArr j "regions").mapM jRegion
+    let jrs ← fArr j "regions"
+    let rs0 ← jrs.mapM jRegion
+    let T ← jAttrMap jrs rs0
+    let rs := standardize cfg T rs0
     match serialize cfg ord p rs with
     | .error e => pure (Json.mkObj [("err", Json.str e)])
     | .ok o =>
@@ -158,8 +178,10 @@ def c09Ops : List (String × Handler) := [
     let cfg ← jCfg j
     let p := (← fInt j "precision").toNat
     let ord := (← (← fArr j "ord").mapM jStr).map Key.ofString
-    let rs ← (← fArr j "regions").mapM jRegion
-    pure (ofExceptRegions (roundTrip cfg ord (roundTo p) p rs))),
+    let jrs ← fArr j "regions"
+    let rs0 ← jrs.mapM jRegion
+    let T ← jAttrMap jrs rs0
+    pure (ofExceptRegions (tripDs9 cfg T ord (roundTo p) p rs0))),
   ("dec.fmt", fun j => do
     pure (Json.mkObj [("ok", Json.str (strOf (fmt (← fInt j "p").toNat (← fRat j "x"))))])),
   ("dec.read", fun j => do
